@@ -9,22 +9,35 @@
    it is notified of its cancellation) and every script (registrations, cancellations, clock advances,
    NOHANG and sleeping iterations). *)
 From Coq Require Import ZArith List.
-From Tickit Require Import LoopDefs LoopSpec LoopAsIs LoopProofs LoopRefine LoopOrder.
+From Tickit Require Import LoopDefs LoopSpec LoopAsIs LoopProofs LoopRefine LoopOrder LoopSpecEq.
 Import ListNotations.
 Local Open Scope Z_scope.
 
-(* the model of the repaired code produces, for every callback environment and every script,
-   exactly the log of the priority-queue specification (LoopSpec, queue formulation: pending
-   timers keyed by (deadline, registration number); an iteration takes the due ones, in key
-   order, then the deferred ones, out of the pending structures as its snapshot and invokes
-   them one by one with FIRE|UNBIND; cancel removes a watch wherever it is, the snapshot
-   included, with UNBIND iff asked; registrations go to the pending structures and so wait;
-   destruction notifies every remaining asker once).  The identity-snapshot formulation of
-   the same specification (nothing is ever detached) is what the oracle runs; the oracle also
-   demands that the two formulations agree on every case. *)
-Theorem C17_refines : forall env uenv ops, run false env uenv ops = qspec_run env uenv ops.
-Proof. exact refines. Qed.
+(* THE specification (LoopSpec.spec_run, ~60 lines): pending timers are a priority queue keyed
+   by (deadline, registration number), deferred callbacks a queue; nothing is ever detached.
+   An iteration at time now takes the SNAPSHOT of the identities of the timers with deadline <=
+   now, in key order, followed by those of the deferred callbacks, and invokes with FIRE|UNBIND
+   each identity that is still pending when its turn comes; registrations get fresh identities
+   (so they wait for a later iteration, whatever their deadline); cancel removes the watch
+   wherever it is and delivers UNBIND iff asked (the notification may register replacements);
+   destruction notifies every remaining asker once.
+   The model of the repaired code produces exactly the log of this specification -- every
+   callback invocation with flags, iteration, clock and deadline, every ppoll time-out, the
+   destroy notifications -- for every callback environment, every script, every clock sequence. *)
+Theorem C17_refines : forall env uenv ops, run false env uenv ops = spec_run env uenv ops.
+Proof. exact refines_spec. Qed.
 Print Assumptions C17_refines.
+
+(* the proof goes through a second formulation of the same specification, in which the
+   iteration keeps its snapshot as a queue (LoopSpec.qspec_run); the two formulations give the
+   same log for every environment and script *)
+Theorem C17_spec_formulations_agree : forall env uenv ops, spec_run env uenv ops = qspec_run env uenv ops.
+Proof. exact spec_formulations_agree. Qed.
+Print Assumptions C17_spec_formulations_agree.
+
+Theorem C17_refines_queue : forall env uenv ops, run false env uenv ops = qspec_run env uenv ops.
+Proof. exact refines. Qed.
+Print Assumptions C17_refines_queue.
 
 (* in a whole history no watch is invoked (FIRE) more than once *)
 Theorem C17_at_most_once : forall env uenv ops id, (fires id (run false env uenv ops) <= 1)%nat.
